@@ -304,7 +304,7 @@ def better (a : Int) : Option Int → Bool
   | none => true
   | some b => a > b
 
-@[noinline] def upd {β : Type} (f : Link → β) (x : Link) (b : β) : Link → β := fun y => if y = x then b else f y
+def upd {β : Type} (f : Link → β) (x : Link) (b : β) : Link → β := fun y => if y = x then b else f y
 
 /-- initial scores of `lattice_bestpath` l.775-787 -/
 def bestInit (L : Lat) : Scores × (Link → Option Link) :=
@@ -529,6 +529,31 @@ def betaInt (P : IntParams) (L : Lat) : Link → Int :=
 
 /-- `lattice_joint`: scaled score of a link chain -/
 def jointInt (P : IntParams) (p : List Link) : Int := (p.map P.sc).sum
+
+/-! #### the same passes over association lists (what the driver executes)
+
+A function-valued state is rebuilt by the compiled code at every lookup; the passes are therefore
+also given over association lists (newest binding first), with `Proofs/LatticeInt.lean` proving that
+they compute the functions above (`alphaIntT_eq`, `betaIntT_eq`). -/
+
+abbrev ATab := List (Link × Int)
+
+/-- lookup with a default function for unbound links -/
+def look (dflt : Link → Int) : ATab → Link → Int
+  | [], y => dflt y
+  | (x, v) :: m, y => if y = x then v else look dflt m y
+
+def alphaVisitT (P : IntParams) (L : Lat) (m : ATab) (l : Link) : ATab :=
+  let a := look (alphaInit P L) m l + P.sc l
+  (exits L l.dst).foldl (fun m x => (x, P.ladd (look (alphaInit P L) m x) a) :: m) ((l, a) :: m)
+
+def alphaIntT (P : IntParams) (L : Lat) : ATab := (traverseEdges L).foldl (alphaVisitT P L) []
+
+def betaVisitT (P : IntParams) (L : Lat) (m : ATab) (l : Link) : ATab :=
+  if l.dst = L.final then (l, 0) :: m
+  else (l, (exits L l.dst).foldl (fun b x => P.ladd b (look (fun _ => P.lz) m x + P.sc x)) P.lz) :: m
+
+def betaIntT (P : IntParams) (L : Lat) : ATab := (traverseEdges L).reverse.foldl (betaVisitT P L) []
 
 /-! ## `fsg_search_lattice` from the history table -/
 
